@@ -250,11 +250,35 @@ def dedup(keys: List[Tuple[str, str]]) -> List[Tuple[str, str]]:
     seen = set()
     out = []
     for k in keys:
-        if k[0] in ("cond", "inv", "snap") and k in seen:
+        if k[0] in ("cond", "inv", "snap", "error") and k in seen:
             continue
         seen.add(k)
         out.append(k)
     return out
+
+
+def align(okeys: List[Tuple[str, str]], exp: Expected) -> Tuple[List[Tuple[str, str]], List[Tuple[str, str]]]:
+    """Reduce observed and expected event lists to comparable form: optional expected events that did not happen are
+    dropped; for diamonds (one evaluation per inheritance path allowed) both sides are compared modulo repetition."""
+    required = [e[:2] for e in exp.events if len(e) == 2]
+    if exp.has_dups:
+        # error-factory calls are judged through the identity of the raised error in this mode
+        return dedup([k for k in okeys if k[0] != "error"]), dedup([k for k in required if k[0] != "error"])
+    out_e = []  # type: List[Tuple[str, str]]
+    j = 0
+    for e in exp.events:
+        if len(e) == 3:
+            if j < len(okeys) and okeys[j] == e[:2]:
+                out_e.append(e[:2])
+                j += 1
+            continue
+        out_e.append(e[:2])
+        if j < len(okeys) and okeys[j] == e[:2]:
+            j += 1
+        else:
+            # mismatch: keep the remaining required events and stop aligning
+            j = len(okeys) + 1
+    return list(okeys), out_e
 
 
 class Discrepancy:
@@ -278,12 +302,7 @@ def compare(loaded, model: Model, contracts: Dict[str, Dict[str, Any]], call: Di
         return [Discrepancy("setup", obs.setup_error)]
 
     okeys = obs.keys()
-    ekeys = list(exp.events)
-    if exp.has_dups:
-        # a diamond may evaluate an inherited condition once per path; compare modulo repetitions
-        cmp_o, cmp_e = dedup(okeys), dedup(ekeys)
-    else:
-        cmp_o, cmp_e = okeys, ekeys
+    cmp_o, cmp_e = align(okeys, exp)
     if exp.outcome[0] == "raise_body" and cmp_o[: len(cmp_e)] == cmp_e and all(k[0] == "inv" for k in cmp_o[len(cmp_e):]):
         # invariants evaluated after a body that raised are a silent zone
         cmp_o = cmp_o[: len(cmp_e)]
@@ -333,7 +352,7 @@ def compare(loaded, model: Model, contracts: Dict[str, Dict[str, Any]], call: Di
                 ok = exc is hub.errinsts.get(ref)
             elif err == "factory":
                 made = hub.factory_made.get(ref, [])
-                ok = len(made) == 1 and exc is made[0]
+                ok = (len(made) == 1 or (exp.has_dups and len(made) >= 1)) and exc is made[-1]
             if not ok:
                 out.append(Discrepancy("error-identity", "expected the {} error of contract {}, got {}: {}".format(
                     err, ref, type(exc).__name__, str(exc)[:400]), contract=ref, exc_type=type(exc).__name__))
